@@ -39,7 +39,10 @@ ASSUMPTIONS = [
     "digits after the point, compared with relative tolerance 1e-9; integer nodes are dimensionless, except dedicated "
     "integer nodes with a unit that are re-stated only in a larger unit of the same dimension (values stay integral)",
     "host and source have the same datatype, or a float host takes an int source; slices only on definition lines "
-    "(a slice on a modification line is always refused by the code); no empty strings, no 'none' values",
+    "(a slice on a modification line is always refused by the code); no empty strings; 'none' values are outside the "
+    "Lean model (its rawValue falls back to the raw value when a node holds no value) and covered by a separate TEXT-level stream with a "
+    "direct oracle: a node given a value and then assigned `none` delivers none to a later injection (definition, own unit, "
+    "modification) and import ({?p}, {?p.*}), an earlier reference keeps the value, units follow the host-else-source rule",
     "an imported node whose destination path already exists (declared or defined) is assigned to that node like a "
     "modification: same type required, current value converted into the existing node's unit, the existing "
     "node keeps its own constraints; remote files define no further sources and modify only nodes they define",
@@ -1805,6 +1808,117 @@ def query_stream(ctx, count):
                 ctx.count("outside.query_impl_ne_model")
 
 
+def none_programs(rng, count):
+    """Programs whose referenced node was SWITCHED OFF (`x = none`) after it had a value: the current value
+    of the node at the reference is none, so an injection / import delivers none (never the stale definition
+    value), with the host's own unit or else the source's.  Written as text; judged by a direct oracle (the
+    Lean model has no 'typed none' value: its `rawValue` falls back to the raw value — see ASSUMPTIONS)."""
+    out = []
+    kinds = [("float", "5", "cm"), ("float", "2.5", "m"), ("float", "7", None), ("int", "3", None),
+             ("bool", "true", None), ("str", '"run1"', None), ("int[2]", "[1,2]", None),
+             ("float[2]", "[1.5,2]", "s"), ("bool[2]", "[true,false]", None), ("str[2]", '["a","b"]', None)]
+    for i in range(count):
+        kw, lit, unit = rng.choice(kinds)
+        grp = rng.random() < 0.5
+        name = rng.choice(["limit", "a", "x_1"])
+        lines, expect = [], {}
+        path = ("cfg." + name) if grp else name
+        if grp:
+            lines.append("cfg")
+        ind = "  " if grp else ""
+        lines.append("%s%s %s = %s%s" % (ind, name, kw, lit, (" " + unit) if unit else ""))
+        if grp and rng.random() < 0.5:
+            lines.append("  other int = 4")
+            other = True
+        else:
+            other = False
+        if rng.random() < 0.5:     # a reference BEFORE the switch-off still sees the value
+            lines.append("early %s = {?%s}" % (kw, path))
+            expect["early"] = ("value", unit)
+        nmods = rng.choice([1, 1, 2])
+        if nmods == 2:             # an ordinary modification first: the LAST assignment is none
+            lines.append("%s = %s%s" % (path, lit, (" " + unit) if unit else ""))
+        lines.append("%s = none" % path)
+        expect[path] = (None, unit)
+        if other:
+            expect["cfg.other"] = (4, None)
+        form = rng.choice(["def", "def-unit", "mod", "imp-exact", "imp-children"] if grp else ["def", "def-unit", "mod", "imp-exact"])
+        isfloat = kw.startswith("float") and unit is not None
+        if form == "def-unit" and not isfloat:
+            form = "def"
+        if form == "def":
+            lines.append("late %s = {?%s}" % (kw, path))
+            expect["late"] = (None, unit)
+        elif form == "def-unit":
+            u2 = {"cm": "m", "m": "mm", "s": "ms"}[unit]
+            lines.append("late %s = {?%s} %s" % (kw, path, u2))
+            expect["late"] = (None, u2)
+        elif form == "mod":
+            lines.insert(0, "late %s = %s%s" % (kw, lit, (" " + unit) if unit else ""))
+            lines.append("late = {?%s}" % path)
+            expect["late"] = (None, unit)
+        elif form == "imp-exact":
+            lines.append("copy {?%s}" % path)
+            expect["copy." + name] = (None, unit)
+        else:
+            lines.append("copy {?cfg.*}")
+            expect["copy." + name] = (None, unit)
+            if other:
+                expect["copy.other"] = (4, None)
+        out.append(("\n".join(lines) + "\n", expect, form))
+    return out
+
+
+def none_run(text):
+    from scinumtools.dip import DIP
+    try:
+        with DIP() as p:
+            p.add_string(text)
+            env = p.parse()
+        got = {}
+        for n in env.nodes:
+            v = n.value
+            got[n.name] = ("NOVALUE", None) if v is None else (v.value, getattr(v, "unit", None))
+        return got
+    except Exception as e:
+        return "err: %s: %s" % (type(e).__name__, str(e)[:160])
+
+
+def none_judge(ctx, text, expect, form, stream="none"):
+    got = none_run(text)
+    ctx.case([stream, text], True, None)
+    ctx.count("%s.%s" % (stream, form))
+    replay = {"stream": "none", "text": text, "expect": {k: [None if v[0] is None else str(v[0]), v[1]] for k, v in expect.items()},
+              "form": form}
+    if isinstance(got, str):
+        ctx.violation("none:rejected", "a program that references a node whose current value is none was refused (%s):\n%s" % (got, text), replay)
+        return
+    if set(got) != set(expect):
+        ctx.violation("none:set", "node set %s differs from the expected %s for\n%s" % (sorted(got), sorted(expect), text), replay)
+        return
+    for k, (ev, eu) in expect.items():
+        gv, gu = got[k]
+        if ev is None:
+            if gv is not None:
+                ctx.violation("none:value", "node %s must hold none (the referenced node's CURRENT value after `= none`) but holds %r:\n%s" % (k, gv, text), replay)
+                return
+        elif ev == "value":
+            if gv is None or (isinstance(gv, str) and gv == "NOVALUE"):
+                ctx.violation("none:early", "node %s references the node before it was switched off and must hold its value, holds %r:\n%s" % (k, gv, text), replay)
+                return
+        elif gv != ev:
+            ctx.violation("none:sibling", "node %s must hold %r, holds %r:\n%s" % (k, ev, gv, text), replay)
+            return
+        if (gu or None) != (eu or None):
+            ctx.violation("none:unit", "node %s must carry unit %r, carries %r:\n%s" % (k, eu, gu, text), replay)
+            return
+
+
+def none_stream(ctx, count):
+    for text, expect, form in none_programs(ctx.rng, count):
+        none_judge(ctx, text, expect, form)
+
+
 def correspond(ctx):
     thorough = ctx.tier == "thorough"
     unit_table()
@@ -1815,6 +1929,7 @@ def correspond(ctx):
     history_stream(ctx, 150 if thorough else 25)
     slice_stream(ctx, 3000 if thorough else 400)
     query_stream(ctx, 3000 if thorough else 400)
+    none_stream(ctx, 600 if thorough else 60)
 
 
 def search(ctx):
@@ -1827,6 +1942,11 @@ def search(ctx):
 
 def replay(ctx, payload):
     rp = payload.get("replay", payload)
+    if rp.get("stream") == "none":
+        exp = {k: ((None if v[0] is None else ("value" if v[0] == "value" else (int(v[0]) if v[0].lstrip("-").isdigit() else v[0]))), v[1])
+               for k, v in rp["expect"].items()}
+        none_judge(ctx, rp["text"], exp, rp.get("form", "def"), "replay-none")
+        return
     if "program" not in rp:
         print(json.dumps(payload, indent=1)[:3000])
         return 2
